@@ -29,3 +29,64 @@ PROPS["C14"] = {
     "record": [{"group": "reshape", "trace_module": "Trace_C14"}],
     "assumptions": COMMON_ASSUMPTIONS + ["contents are element identities 1..n (reshape never inspects values)"],
 }
+
+PROPS["C15"] = {
+    "level": "model_checking",
+    "exhaustive": True,
+    "technique": "TLC model checking of ArithSM.tla + replay of every enumerated behaviour (integer and float mode) + TLC trace validation (Trace_C15)",
+    "level_text": "TLC enumerates every behaviour of the accumulator state machine (all shapes of rank 1-4 with dims<=MaxDim plus nested lists, "
+                  "matching and mismatching operands, add/sub/mul/hadamard followed by div/mean/clamp/transpose/dot/outer), checks shape "
+                  "preservation, refusal<=>mismatch and clamp-interval invariants; each behaviour is replayed on real tensors with exact "
+                  "comparison, and re-run with float operands against the single IEEE operation per element; randomized longer runs are validated "
+                  "against the trace specification",
+    "level_note": "bounded: dims<=2 (quick) / <=3 (thorough) in TLC, values in -3..3; float mode and larger shapes are sampled",
+    "rule": "one case = one complete behaviour (start tensor, operation sequence ending in a terminal op); all are distinct by construction; "
+            "non-trivial = at least one accepted value-changing op or one refusal",
+    "mc": [{"module": "MC_C15",
+            "consts": {"quick": {"MaxDim": 2, "Depth": 1, "Seeds": "{1, 2}"},
+                       "thorough": {"MaxDim": 2, "Depth": 2, "Seeds": "{1, 2, 3}"}},
+            "workers": 8}],
+    "record": [{"group": "arith", "trace_module": "Trace_C15"}],
+    "assumptions": COMMON_ASSUMPTIONS + ["float mode: the harness's own `a op b` in f32 is the IEEE single-precision result"],
+}
+
+ALL_KINDS = '{"conv", "deconv", "pool", "dense"}'
+
+def pick_from_seed(seed):
+    return seed % 1000003
+
+PROPS["C02"] = {
+    "level": "model_checking",
+    "technique": "TLC enumeration of the layer configuration lattice (Layers.tla defining operators) + exact replay of every case into the real layers",
+    "level_text": "TLC enumerates the (kind, channels, height, width, filters, kernel, stride, padding, dilation, activation) lattice -- sampled by a "
+                  "seeded linear hash in the quick tier, complete in the thorough tier -- with integer parameters and inputs, evaluates the "
+                  "defining operators of Layers.tla, and every case is replayed through the real layer's forward with both input representations; "
+                  "pre- and post-activations must agree exactly (f32 is exact on these integers)",
+    "level_note": "bounded lattice (inputs 3..5/6, kernels 1..3, stride 1..2(3), padding 0..2, dilation 1..2, 1..2 channels/filters); Linear and ReLU "
+                  "activations; values in -3..3",
+    "rule": "one case = one (configuration, data seed); distinct = distinct configuration tuples replayed; every case is non-trivial (non-constant "
+            "kernels and inputs)",
+    "mc": [{"module": "MC_Layers",
+            "consts": {"quick": {"Kinds": ALL_KINDS, "MaxHW": 5, "Stride": 31, "Pick": pick_from_seed, "DataSeeds": "{1}", "CheckFD": "FALSE"},
+                       "thorough": {"Kinds": ALL_KINDS, "MaxHW": 6, "Stride": 1, "Pick": 0, "DataSeeds": "{1, 2}", "CheckFD": "FALSE"}},
+            "workers": 12, "timeout": {"quick": 900, "thorough": 7200}}],
+    "assumptions": COMMON_ASSUMPTIONS,
+}
+
+PROPS["C01"] = {
+    "level": "model_checking",
+    "technique": "TLC checks the specification's backward mechanism against exact finite differences of its forward definition on the lattice; "
+                 "every case's gradients are replayed exactly into the real layers (attribution by finite differences of the real forward)",
+    "level_text": "For every enumerated configuration TLC proves, coordinate by coordinate, that the specification's backward mechanism equals the "
+                  "unit finite difference of <g, forward> wherever the ReLU/arg-max pattern is stable (so the difference is the derivative); the "
+                  "resulting weight/bias/kernel and input gradients are compared exactly with the real layers' backward()",
+    "level_note": "same lattice bounds as C02; integer data; ReLU kinks and pool ties excluded as the property states; smooth activations are "
+                  "covered separately through C07 (scalar derivative) because the layer code never branches on the activation kind",
+    "rule": "one case = one (configuration, data seed) with a non-zero upstream gradient; distinct = distinct configuration tuples; non-trivial = "
+            "every case (gradient tensors are non-zero by construction)",
+    "mc": [{"module": "MC_Layers",
+            "consts": {"quick": {"Kinds": ALL_KINDS, "MaxHW": 5, "Stride": 211, "Pick": pick_from_seed, "DataSeeds": "{1}", "CheckFD": "TRUE"},
+                       "thorough": {"Kinds": ALL_KINDS, "MaxHW": 5, "Stride": 7, "Pick": pick_from_seed, "DataSeeds": "{1, 2}", "CheckFD": "TRUE"}},
+            "workers": 12, "timeout": {"quick": 900, "thorough": 14400}}],
+    "assumptions": COMMON_ASSUMPTIONS,
+}
